@@ -1,0 +1,20 @@
+//go:build verif && (verif_all || verif_c33)
+
+package sample
+
+import (
+	dynsampler "github.com/honeycombio/dynsampler-go"
+
+	"github.com/honeycombio/refinery/metrics"
+)
+
+// Export-only wrapper for the verification harness (property C33). No behaviour.
+
+// VerifC33Recorder builds the dynsampler metrics recorder the samplers use (same construction as
+// in createSampler: prefix + store), registers it against the given sampler, and returns its
+// RecordMetrics bound to that sampler.
+func VerifC33Recorder(prefix string, met metrics.Metrics, s dynsampler.Sampler) func(kept bool, rate uint, numTraceKey int) {
+	r := &dynsamplerMetricsRecorder{prefix: prefix, met: met}
+	r.RegisterMetrics(s)
+	return func(kept bool, rate uint, numTraceKey int) { r.RecordMetrics(s, kept, rate, numTraceKey) }
+}
